@@ -2,6 +2,7 @@ package drivers
 
 import (
 	"encoding/json"
+	"errors"
 	"fmt"
 	"os"
 	"sort"
@@ -10,6 +11,7 @@ import (
 	"time"
 
 	"github.com/gr33nbl00d/caddy-revocation-validator/config"
+	"github.com/gr33nbl00d/caddy-revocation-validator/core"
 	"github.com/gr33nbl00d/caddy-revocation-validator/crl"
 
 	"verif/h/fw"
@@ -303,6 +305,66 @@ func c10Configs(tier string) []c10Cfg {
 	return out
 }
 
+// c10LoadFaults: single-fault enumeration over the first load of a distribution-point CRL. For every effect point of
+// the load (file and database operations of download, staging and activation) one run injects an error exactly
+// there; afterwards - fault gone - a certificate which no CRL lists is presented twice. With crl_cdp_strict off the
+// failed attempt to obtain or use the CRL must not deny it; nothing may panic.
+func c10LoadFaults(chk *fw.Check) (evals int) {
+	c := newC10Cast()
+	loc := &core.CRLLocations{CRLDistributionPoints: c10CDPSets[0]}
+	url := c10CDPSets[0][0]
+	for _, disk := range []bool{false, true} {
+		count := func(dieAt int) (n int, v1, v2 Verdict, fired string) {
+			res := seqWorld(func() {
+				w := NewCW(CWOpt{Disk: disk, SigMode: config.SignatureValidationModeVerify})
+				defer os.RemoveAll(w.Dir)
+				if err := w.Provision(); err != nil {
+					panic(err)
+				}
+				vsched.Drain()
+				w.Net.Serve(url, "good", c.good)
+				vsched.EffectHook = func(kind, arg string) error {
+					n++
+					if n == dieAt {
+						fired = kind
+						return errors.New("injected: " + kind + " failed")
+					}
+					return nil
+				}
+				chains := core.NewCertificateChains(world.Chain(c.clean[0], c.p.CA, c.p.Root), nil)
+				func() {
+					defer func() { recover() }()
+					w.Repo().AddCRL(loc, chains)
+				}()
+				vsched.EffectHook = nil
+				v1 = w.Lookup(c.clean[0], world.Chain(c.clean[0], c.p.CA, c.p.Root))
+				v2 = w.Lookup(c.clean[0], world.Chain(c.clean[0], c.p.CA, c.p.Root))
+				w.Chk.Cleanup()
+			})
+			vsched.EffectHook = nil
+			if res.Verdict != vsched.OK {
+				v1.Panic = res.Verdict.String() + ": " + firstLines(res.Detail, 3)
+			}
+			return
+		}
+		total, _, _, _ := count(0)
+		for k := 1; k <= total; k++ {
+			_, v1, v2, kind := count(k)
+			evals++
+			for i, v := range []Verdict{v1, v2} {
+				switch {
+				case v.Panic != "":
+					chk.Violation("C10|panic-after-load-fault|"+kind+"|"+be(disk), fmt.Sprintf("first load with an injected %s error (effect point %d of %d, %s backend): %s", kind, k, total, be(disk), v.Panic), nil)
+				case v.Err != "":
+					chk.Violation("C10|lenient-denied-after-load-fault|"+kind+"|"+be(disk),
+						fmt.Sprintf("crl_cdp_strict off, %s backend: the first load of the distribution-point CRL hit an injected %s error (effect point %d of %d); handshake %d afterwards (fault gone, certificate not listed anywhere) is denied: %s", be(disk), kind, k, total, i+1, v.Err), nil)
+				}
+			}
+		}
+	}
+	return
+}
+
 // RunC10 is the entry point of the C10 check.
 func RunC10(tier string, args []string) int {
 	if len(args) > 0 && args[0] == "hworker" {
@@ -367,10 +429,12 @@ func RunC10(tier string, args []string) int {
 		"all served CRL variants list the same serials, so only 'is a CRL in force' and 'is the serial listed' enter the oracle",
 	}
 	total := runHWorkers(chk, "C10", tier, 16)
+	faultRuns := c10LoadFaults(chk)
 	cov := fw.Coverage{
-		"states":                        total.Stats.States,
-		"transitions":                   total.Stats.Transitions,
-		"traces_validated_against_impl": total.Stats.Transitions,
+		"states":                        total.Stats.States + faultRuns,
+		"transitions":                   total.Stats.Transitions + 3*faultRuns,
+		"traces_validated_against_impl": total.Stats.Transitions + faultRuns,
+		"load_fault_runs":               faultRuns,
 		"configurations":                total.Configs,
 		"max_depth":                     total.Stats.MaxDepth,
 		"merged_transitions":            total.Stats.Pruned,
